@@ -272,6 +272,30 @@ func c16Large(c *sim.Ctx) *sim.Violation {
 	return nil
 }
 
+// c16LegacyBody returns a body for the type in the MQTT 3.1.1 layout.
+func c16LegacyBody(t *sim.Tape, typ byte) []byte {
+	pid := []byte{byte(t.Int(256)), byte(1 + t.Int(255))}
+	str := func(s string) []byte { return append([]byte{byte(len(s) >> 8), byte(len(s))}, s...) }
+	switch typ {
+	case ref.Connect:
+		b := append(str("MQTT"), 4, 0x02, 0x00, 0x3C)
+		return append(b, str("client")...)
+	case ref.ConnAck:
+		return []byte{byte(t.Int(2)), byte(t.Int(6))} // session present, return code 0..5
+	case ref.Publish:
+		return append(str("a/b"), []byte("payload")...) // QoS 0 layout; with QoS bits set the first payload bytes read as the identifier
+	case ref.PubAck, ref.PubRec, ref.PubRel, ref.PubComp, ref.UnsubAck:
+		return pid
+	case ref.Subscribe:
+		return append(append(pid, str("a/#")...), byte(t.Int(3)))
+	case ref.SubAck:
+		return append(pid, []byte{0, 1, 2, 0x80}[t.Int(4)])
+	case ref.Unsubscribe:
+		return append(pid, str("a/#")...)
+	}
+	return nil
+}
+
 func runC16(c *sim.Ctx) *sim.Violation {
 	if v := c16Nested(c); v != nil {
 		return v
@@ -301,6 +325,20 @@ func runC16(c *sim.Ctx) *sim.Violation {
 			if f2, ok := setReserved(c.T, frame, fm); ok && c.T.Bool(2, 3) {
 				frame = f2
 				c.Count("fault.reserved-bits-set-in-a-flags-byte-of-the-body")
+			} else if lb := c16LegacyBody(c.T, first>>4); lb != nil && c.T.Bool(1, 3) {
+				// the body in the layout of MQTT 3.1.1 (no property sections, return codes
+				// instead of reason codes): what a v3 peer or a bridge would send
+				frame, _ = ref.Frame(first, lb, nil)
+				c.Count("fault.body-in-the-layout-of-an-earlier-protocol-version")
+			} else if c.T.Bool(1, 3) {
+				// the body cut short (remaining length truthful): the layouts of EARLIER
+				// protocol versions look like this (a two-byte CONNACK, an acknowledgement
+				// without reason code) and a decoder may accept them
+				h := hdrLen(frame)
+				if n := len(frame) - h; n > 1 {
+					frame = gen.FixRL(append([]byte{}, frame[:h+1+c.T.Int(n-1)]...))
+				}
+				c.Count("fault.body-cut-short")
 			} else {
 				frame = damageBody(c.T, frame)
 			}
